@@ -16,7 +16,11 @@ use std::sync::atomic::{AtomicBool, AtomicUsize, Ordering};
 use std::sync::{Arc, Mutex};
 use std::time::{Duration, Instant};
 
-pub const VERIF_DIR: &str = "/verif";
+/// root of the verification tree: /verif, or $VERIF_DIR (set by ./check to its own directory, so that a
+/// snapshot of the tree started with `vp run` keeps its files to itself)
+pub fn verif_dir() -> String {
+    std::env::var("VERIF_DIR").ok().filter(|s| !s.is_empty()).unwrap_or_else(|| "/verif".to_string())
+}
 
 #[derive(Clone, Copy, Debug, PartialEq, Eq)]
 pub enum Tier {
@@ -260,7 +264,7 @@ pub struct Finding {
 }
 
 pub fn load_findings() -> Vec<Finding> {
-    let p = format!("{}/known_findings.json", VERIF_DIR);
+    let p = format!("{}/known_findings.json", verif_dir());
     match std::fs::read_to_string(&p) {
         Ok(s) => match serde_json::from_str::<J>(&s) {
             Ok(j) => {
@@ -671,7 +675,7 @@ impl Ctx {
 
     /// One evaluation exceeded the watchdog limit. Confirm in a child process, then exit.
     fn report_hang(&self, what: &str) -> ! {
-        let dir = format!("{}/replays", VERIF_DIR);
+        let dir = format!("{}/replays", verif_dir());
         let _ = std::fs::create_dir_all(&dir);
         let path = format!("{}/{}-{}-hang.json", dir, self.prop, self.seed);
         let body = json!({"property": self.prop, "sub": "hang", "case": serde_json::from_str::<J>(what).unwrap_or(J::String(what.to_string())), "rendered": what, "message": "evaluation did not return within the watchdog limit"});
@@ -776,7 +780,7 @@ impl Ctx {
             "assumptions": *self.assumptions.lock().unwrap(),
             "notes": *self.notes.lock().unwrap(),
         });
-        let dir = format!("{}/evidence", VERIF_DIR);
+        let dir = format!("{}/evidence", verif_dir());
         let _ = std::fs::create_dir_all(&dir);
         let path = format!("{}/{}.json", dir, self.prop);
         let tmp = format!("{}.tmp", path);
@@ -794,13 +798,14 @@ impl Ctx {
             }
         }
         let violations = self.violations.lock().unwrap().clone();
-        let dir = format!("{}/replays", VERIF_DIR);
+        let dir = format!("{}/replays", verif_dir());
         let mut code = 0;
         if !violations.is_empty() {
             let _ = std::fs::create_dir_all(&dir);
             code = 1;
         }
         let mut seen = BTreeSet::new();
+        let mut printed = 0;
         for (k, v) in violations.iter().enumerate() {
             // one file per distinct (sub, rendered)
             if !seen.insert((v.sub.clone(), v.rendered.clone())) {
@@ -809,8 +814,15 @@ impl Ctx {
             let path = PathBuf::from(format!("{}/{}-{}-{}-{}.json", dir, self.prop, v.sub, self.seed, k));
             let body = json!({"property": self.prop, "sub": v.sub, "seed": v.seed, "tier": self.tier.name(), "case": v.case, "rendered": v.rendered, "message": v.msg});
             let _ = std::fs::write(&path, serde_json::to_string_pretty(&body).unwrap());
+            printed += 1;
+            if printed > 25 {
+                continue;
+            }
             println!("VIOLATION property={} replay={}", self.prop, path.display());
             eprintln!("  sub={} input={:?}\n  {}", v.sub, v.rendered, v.msg);
+        }
+        if printed > 25 {
+            eprintln!("  ... {} further violations (replay files written, not listed)", printed - 25);
         }
         self.write_evidence(code);
         let total = self.total.lock().unwrap();
